@@ -30,6 +30,8 @@ def run(ck):
     for entry, w in rulebase.known_witnesses("C02"):
         if w:
             wit.append({"k": "rule", "id": ck.new_id(), "rule": w["rule"], "docs": [w["doc"]], "sw": [0], "_e": entry, "_w": w})
+    for c in cases:
+        c["trees"] = True       # the loaded expression trees themselves are part of the compared line
     send = rulebase.wire(cases + wit)
     impl, model, _ = lib.run_cases(send, "C02", runner_args=["--spec"])
     direct_failed = set()
